@@ -280,7 +280,7 @@ struct Ops<T> {
     remove_move: fn(&mut T, ChessMove) -> bool,
 }
 
-fn observers<T: ExactSizeIterator<Item = ChessMove>>(ops: &Ops<T>, it: &T, model: &Model, step: usize, after: &str) -> Option<Failure> {
+fn observers<T: ExactSizeIterator<Item = ChessMove> + Clone>(ops: &Ops<T>, it: &T, model: &Model, step: usize, after: &str) -> Option<Failure> {
     let want = model.visible().len();
     let got = (ops.len)(it);
     if got != want {
@@ -295,6 +295,11 @@ fn observers<T: ExactSizeIterator<Item = ChessMove>>(ops: &Ops<T>, it: &T, model
     }
     if ExactSizeIterator::len(it) != want {
         return Some(Failure { what: format!("exact-size-len-wrong:{after}"), step, detail: format!("{want} moves remain") });
+    }
+    // the specialised Iterator::count of a copy
+    let c = it.clone().count();
+    if c != want {
+        return Some(Failure { what: format!("count-wrong:{after}"), step, detail: format!("clone().count() = {c}, {want} moves remain") });
     }
     None
 }
